@@ -568,10 +568,23 @@ assembleVaryKey(String &vary, SBuf &vstr, const HttpRequest &request)
         if (!vstr.isEmpty())
             vstr.append(", ", 2);
         vstr.append(name);
-        String hdr(request.header.getByName(name));
-        const char *value = hdr.termedBuf();
-        if (value) {
-            value = rfc1738_escape_part(value);
+        // Combine all field lines carrying this name (RFC 9111 section 4.1).
+        // getByName() is not suitable here: for registered non-list fields it
+        // returns the first field line only and it cannot tell an empty value
+        // from a missing field.
+        String hdr;
+        bool present = false;
+        HttpHeaderPos hdrPos = HttpHeaderInitPos;
+        while (const auto e = request.header.getEntry(&hdrPos)) {
+            if (e->name.caseCmp(name) != 0)
+                continue;
+            present = true;
+            const auto fieldValue = e->value.termedBuf();
+            strListAdd(&hdr, fieldValue ? fieldValue : "", ',');
+        }
+        if (present) {
+            const auto combined = hdr.termedBuf();
+            const char *value = rfc1738_escape_part(combined ? combined : "");
             vstr.append("=\"", 2);
             vstr.append(value);
             vstr.append("\"", 1);
